@@ -40,11 +40,11 @@ func (check) Cases(tier string) int {
 	return 2000
 }
 
-const typeShare = 8   // consecutive cases sharing one generated type
-const maxVariants = 96 // fault variants executed per case
+const typeShare = 4     // consecutive cases sharing one generated type
+const maxVariants = 128 // fault variants executed per case
 
 func (check) Rule() string {
-	return "one case = (type, plan). Type: top-level struct of 2-5 fields, depth <= 3, fields of kind int int64 uint float64 string time.Duration and the library leaves Port / Level / DefLevel / DefBad (Validate with value or pointer receiver, InitDefaults giving a valid or an invalid value), pointers to those, slices / arrays / maps of those, structs by value, by pointer, inline, in slices, arrays and maps (by value and by pointer), interface{} fields (holding a number, a string or a pointer to struct), ignored fields, and the library structs WithDefaults / WithBadDefaults (InitDefaults), Range / Pair (cross-field Validate, value / pointer receiver), Hidden (unexported + ignored field); collision-free `config` names and 0-2 validators per field among required, nonzero, positive, min=N, max=N (durations: 5s or 5) that apply to the kind; one type per " + strconv.Itoa(typeShare) + " consecutive cases. Plan: every position independently takes its value from the configuration (spelled as int/int64/uint64/float/string, durations as text or seconds, 1 in 6 through ${v.xN} under PathSep(.)+VarExp), from the pre-filled target, from InitDefaults, or stays zero/nil; slices mix configured, merged and untouched pre-filled elements, maps mix configured, pre-filled and merged entries. Valid values are interior or exactly on a bound (bounds are inclusive). Base plan: Unpack must return nil and the oracle walk must be clean. Then every (position, validator, source) fault the plan admits (<= " + strconv.Itoa(maxVariants) + " per case) is injected alone: bad value from the configuration / through a variable / as pre-filled default / by leaving the field absent / by InitDefaults / as explicit null; Unpack must fail and name the field. A fault variant is executed only if the model of Unpack for these shapes agrees that exactly this position is invalid. Non-trivial = the type has at least one validator-bearing position; distinct = distinct (type, sources of all leaves, fault)."
+	return "one case = (type, plan). Type: top-level struct of 2-6 fields, depth <= 3, fields of kind int int64 uint float64 string time.Duration and the library leaves Port / Level / DefLevel / DefBad (Validate with value or pointer receiver, InitDefaults giving a valid or an invalid value), pointers to those, slices / arrays / maps of those, structs by value, by pointer, inline, in slices, arrays and maps (by value and by pointer), interface{} fields (holding a number, a string or a pointer to struct), ignored fields, and the library structs WithDefaults / WithBadDefaults (InitDefaults), Range / Pair (cross-field Validate, value / pointer receiver), Hidden (unexported + ignored field); collision-free `config` names and 0-2 validators per field among required, nonzero, positive, min=N, max=N (durations: 5s or 5) that apply to the kind; one type per " + strconv.Itoa(typeShare) + " consecutive cases. Plan: every position independently takes its value from the configuration (spelled as int/int64/uint64/float/string, durations as text or seconds, 1 in 6 through ${v.xN} under PathSep(.)+VarExp), from the pre-filled target, from InitDefaults, or stays zero/nil; slices mix configured, merged and untouched pre-filled elements, maps mix configured, pre-filled and merged entries. Valid values are interior or exactly on a bound (bounds are inclusive). Base plan: Unpack must return nil and the oracle walk must be clean. Then every (position, validator, source) fault the plan admits (<= " + strconv.Itoa(maxVariants) + " per case) is injected alone: bad value from the configuration / through a variable / as pre-filled default / by leaving the field absent / by InitDefaults / as explicit null; Unpack must fail and name the field. A fault variant is executed only if the model of Unpack for these shapes agrees that exactly this position is invalid. Non-trivial = the type has at least one validator-bearing position; distinct = distinct (type, sources of all leaves, fault)."
 }
 
 func (check) Assumptions() []string {
@@ -150,7 +150,7 @@ func enumerate(r *rand.Rand, top *pnode) []fault {
 					if nullable || n.isElem {
 						continue
 					}
-					one := domainOf(k, []vtag{v})
+					one := tagOnly(k, v)
 					init := initValue(k)
 					if init == nil {
 						init = holderInit(n)
@@ -175,7 +175,7 @@ func enumerate(r *rand.Rand, top *pnode) []fault {
 			return
 		}
 		if n.structLike() {
-			if s := n.structType(); s.lib == "Range" || s.lib == "Pair" {
+			if s := n.structType(); len(n.kids) == 2 && (s.lib == "Range" || s.lib == "Pair") {
 				out = append(out, fault{pos: n, validator: vtag{name: "Validate"}, source: "config", structLvl: true},
 					fault{pos: n, validator: vtag{name: "Validate"}, source: "default", structLvl: true})
 			}
@@ -190,6 +190,16 @@ func enumerate(r *rand.Rand, top *pnode) []fault {
 		}
 	})
 	return out
+}
+
+// reified: Unpack visits the struct-like node field by field (and runs its
+// InitDefaults): the top, structs held by value in a reified struct, and
+// everything the configuration mentions.
+func (n *pnode) reified() bool {
+	if n.parent == nil || n.inCfg {
+		return true
+	}
+	return n.t.k == kStruct && !n.isElem && n.parent.reified()
 }
 
 // ensureCfg makes every holder of n present in the configuration.
@@ -240,6 +250,12 @@ func inject(r *rand.Rand, n *pnode, f fault, useVars bool) bool {
 	case "default":
 		if n.isElem && (n.inCfg || !n.inPre) {
 			return false // only untouched pre-filled elements keep their default
+		}
+		if !n.isElem && n.parent.reified() {
+			k, _ := n.leafKind()
+			if n.t.k.scalar() && initValue(k) != nil || holderInit(n) != nil {
+				return false // InitDefaults overwrites the pre-filled value
+			}
 		}
 		n.inCfg, n.cfgNull, n.viaVar = false, false, false
 		n.inPre, n.preVal = true, f.bad
@@ -304,6 +320,18 @@ func injectStruct(n *pnode, f fault) bool {
 		n.kids[1].clear()
 	}
 	return true
+}
+
+func kindClass(k kind) string {
+	switch k {
+	case kString:
+		return "string"
+	case kDur:
+		return "duration"
+	case kPort, kLevel, kDefLevel, kDefBad:
+		return "named-number"
+	}
+	return "number"
 }
 
 func insideElement(n *pnode) bool {
@@ -457,10 +485,19 @@ func (check) Run(seed int64, tier string, idx int, verbose bool) harness.Result 
 			return
 		}
 		res.SetAdd("position_kind", kindNames[n.t.k]+"@"+n.shape)
-		if _, ok := n.leafKind(); ok {
-			res.SetAdd("valid_source", n.source())
+		if _, ok := n.leafKind(); !ok && !n.isElem {
 			for _, v := range n.vals() {
-				res.SetAdd("valid", v.name+":"+n.source()+":"+n.shape)
+				res.SetAdd("valid", v.name+":"+n.source()+":"+n.shape+"("+kindNames[n.t.k]+")")
+			}
+		}
+		if k, ok := n.leafKind(); ok {
+			src := n.source()
+			if src == "absent" && n.parent.reified() && (n.t.k.scalar() && initValue(k) != nil || holderInit(n) != nil) {
+				src = "initdefaults"
+			}
+			res.SetAdd("valid_source", src)
+			for _, v := range n.vals() {
+				res.SetAdd("valid", v.name+":"+src+":"+n.shape)
 			}
 		}
 	})
@@ -542,7 +579,11 @@ func (check) Run(seed int64, tier string, idx int, verbose bool) harness.Result 
 		m := map[*pnode]*pnode{}
 		variant := base.clone(nil, m)
 		n := m[f.pos]
-		fid := f.validator.name + ":" + f.source + ":" + f.pos.shape
+		shape := f.pos.shape
+		if f.structLvl {
+			shape = f.pos.sshape // how the struct value itself is held
+		}
+		fid := f.validator.name + ":" + f.source + ":" + shape
 		if !inject(r, n, f, useVars) {
 			res.Ev("variant_not_admitted_by_plan", 1)
 			continue
@@ -574,7 +615,7 @@ func (check) Run(seed int64, tier string, idx int, verbose bool) harness.Result 
 			res.SetAdd("variant_skipped_by_model", why+":"+fid)
 			continue
 		}
-		fid = f.validator.name + ":" + source + ":" + n.shape
+		fid = f.validator.name + ":" + source + ":" + shape
 		vsrcs := sources(variant)
 		res.Key(hashKey(typeStr + "|" + vsrcs + "|" + fid + "@" + n.path))
 		res.SetAdd("exercised", fid)
@@ -600,14 +641,22 @@ func (check) Run(seed int64, tier string, idx int, verbose bool) harness.Result 
 					}
 					seen = true
 					sig := "completeness:" + fid
+					lk, isLeaf := n.leafKind()
+					if isLeaf && (shape == "pointer-field" || shape == "interface-field") {
+						sig += ":" + kindClass(lk)
+					}
+					tagV := f.validator.name == "min" || f.validator.name == "max" || f.validator.name == "positive"
 					switch {
 					case prefilledMapEntry(n):
 						sig = "prefilled-map-entry-not-validated"
-					case n.shape == "pointer-field" && (f.validator.name == "min" || f.validator.name == "max" || f.validator.name == "positive"):
-						if source == "default" {
-							sig = "validator-skipped-on-pointer-default:" + f.validator.name
-						} else {
-							sig = "validator-skipped-on-pointer-from-config:" + f.validator.name
+					case shape == "pointer-field" && tagV && source == "default":
+						sig = "validator-skipped-on-pointer-default:" + f.validator.name
+					case shape == "pointer-field" && tagV && (source == "config" || source == "varexp"):
+						sig = "validator-skipped-on-pointer-from-config:" + f.validator.name
+					case source == "initdefaults" && isLeaf && n.t.k.scalar() && initValue(lk) != nil:
+						sig = "initdefaults-value-of-primitive-not-validated:tag"
+						if f.validator.name == "Validate" {
+							sig = "initdefaults-value-of-primitive-not-validated:Validate"
 						}
 					}
 					res.Violate(sig, "%s: Unpack returned nil and the result holds the invalid value: %s; result %s; %s", what, x.detail, canonVal(o.target.Elem()), describe(o))
@@ -625,36 +674,45 @@ func (check) Run(seed int64, tier string, idx int, verbose bool) harness.Result 
 			}
 		default:
 			msg := o.err.Error()
-			lenient := insideElement(n) || !(source == "config" || source == "varexp" || source == "config-null")
-			okPath, how := false, ""
-			if strings.Contains(msg, "'"+n.path+"'") {
-				okPath, how = true, "fault:reported-naming-field"
-			} else if lenient {
+			accepted := []string{n.path}
+			if insideElement(n) || !(source == "config" || source == "varexp" || source == "config-null") {
 				segs := strings.Split(n.path, ".")
-				for i := len(segs) - 1; i >= 1 && !okPath; i-- {
-					if strings.Contains(msg, "'"+strings.Join(segs[:i], ".")+"'") {
-						okPath, how = true, "fault:reported-naming-enclosing-setting"
+				for i := len(segs) - 1; i >= 1; i-- {
+					accepted = append(accepted, strings.Join(segs[:i], "."))
+				}
+			}
+			okPath := false
+			for i, a := range accepted {
+				if strings.Contains(msg, "'"+a+"'") {
+					okPath = true
+					if i == 0 {
+						res.SetAdd("outcome", "fault:reported-naming-field")
+					} else {
+						res.SetAdd("outcome", "fault:reported-naming-enclosing-setting")
 					}
+					break
 				}
 			}
 			if okPath {
-				res.SetAdd("outcome", how)
 				res.Ev("fault_reported", 1)
 				break
 			}
 			class := "other-path"
 			named, has := namedPath(msg)
-			switch {
-			case !has:
+			if !has {
 				class = "no-path"
-			case isSubsequence(named, n.path):
-				class = "struct-name-missing"
+			} else {
+				for _, a := range accepted {
+					if isSubsequence(named, a) {
+						class = "struct-name-missing"
+					}
+				}
 			}
 			sig := "error-does-not-name-field:" + class
 			if absentByValueStruct(n) {
 				sig += ":absent-by-value-struct"
 			} else {
-				sig += ":" + source + ":" + n.shape
+				sig += ":" + source + ":" + shape
 			}
 			res.Violate(sig, "%s: Unpack fails with %q, which does not name '%s'; %s", what, msg, n.path, describe(o))
 			res.SetAdd("outcome", "fault:reported-without-field")
